@@ -472,7 +472,7 @@ func TestVerifC40Tools(t *testing.T) {
 		"the statement's 'metadata store' is exercised as the real InMemoryStore behind the Store interface; the decorator verdict (no mutating method called) carries to any Store implementation, the dump verdict only to the in-memory one",
 		"store methods are classified read/mutating from the interface's documented contract",
 		"a watchdog context of 60 s per call only guards against a hung transport: its firing is inconclusive")
-	n := r.N(70, 1500)
+	n := r.N(50, 1500)
 	toolsSeen := map[string]bool{}
 	for ci := 0; ci < n; ci++ {
 		rng := r.Rand(ci)
